@@ -525,7 +525,9 @@ func (t *ftr) render(body string) string {
 	} else {
 		fmt.Fprintf(&b, "  | Next v | Brk v | Cnt v | Fuel v => %s\n", out(fallZero))
 	}
-	b.WriteString("  end.\n\n")
+	b.WriteString("  end.\n")
+	// callers are rewritten with the callee's tie lemma, not unfolded by cbn/simpl (`unfold` still works)
+	fmt.Fprintf(&b, "#[global] Arguments %s : simpl never.\n\n", f.coq)
 	return b.String()
 }
 
